@@ -29,12 +29,13 @@ def delay_subscription_(
         Time-shifted sequence.
     """
 
+    # Subscribe to the source once the timer fires.  The elements themselves
+    # must not be re-scheduled: routing each of them through an empty() delay
+    # dropped an element when the source failed in the same instant.
     def mapper(_: Any) -> Observable[_T]:
-        return reactivex.empty()
+        return source
 
-    return source.pipe(
-        ops.delay_with_mapper(reactivex.timer(duetime, scheduler=scheduler), mapper)
-    )
+    return reactivex.timer(duetime, scheduler=scheduler).pipe(ops.flat_map(mapper))
 
 
 __all__ = ["delay_subscription_"]
